@@ -330,6 +330,23 @@ theorem unbindFSValAux_nil (e : Bool) (x : Str) (h : unbindFSValAux e x = []) : 
       · cases h
       · split at h <;> cases h
 
+/-- What `(*Value).unbindFS` yields passes the per-attribute checks of
+    `WFN.Valid` as soon as its string validates: a set value is never empty. -/
+theorem attrOk_unbindFSAttr (c : Str) (h : validate (unbindFSAttr c).v = true) :
+    attrOk (unbindFSAttr c) = true := by
+  simp only [attrOk, h, Bool.true_and]
+  unfold unbindFSAttr
+  by_cases h0 : c = []
+  · simp [h0]
+  · by_cases h1 : c = [45]
+    · simp [h1]
+    · by_cases h2 : c = [42]
+      · simp [h2]
+      · simp only [h0, h1, h2, if_false, beq_self_eq_true, Bool.true_and, Bool.not_eq_true',
+          List.isEmpty_eq_false_iff]
+        intro hnil
+        exact h0 (unbindFSValAux_nil false c hnil)
+
 /-- An avstring that is not one of the logical values unbinds to a value that
     `validate` accepts and that binds back to the avstring. -/
 theorem avString_set (c : Str) (l r : Option Nat) (body : Str) (hc : c = leadStr l ++ body ++ leadStr r)
@@ -414,11 +431,11 @@ theorem formattedString_accepted (s : Str) (h : FormattedString s) :
   have hpre : Gen.Cpe.cpe23Prefix.isPrefixOf s = true := by
     rw [hs]; simp [Gen.Cpe.cpe23Prefix, List.isPrefixOf]
   obtain ⟨w, hw⟩ : ∃ w : WFN, w = (part :: rest).map unbindFSAttr := ⟨_, rfl⟩
-  have h1 : w.all (fun a => validate a.v) = true := by
+  have h1 : w.all attrOk = true := by
     rw [hw]
     simp only [List.all_map, List.all_eq_true]
     intro c hc
-    exact (avString_attr c (hall c hc)).1
+    exact attrOk_unbindFSAttr c (avString_attr c (hall c hc)).1
   have h2 : w.all (fun a => a.kind == Kind.unset) = false := by
     have := (avString_attr part hpartAv).2.2
     rw [hw]
